@@ -1,4 +1,4 @@
-CONSTANTS Tables = {"a", "b"}  Cached = {"a", "b"}  Updatable = {"a", "b"}  MaxId = 2  MaxRets = 2  MaxDepth = 5  DeepCopy = TRUE
+CONSTANTS Tables = {"a", "b"}  Cached = {"a", "b"}  Updatable = {"a", "b"}  Bulk = {"a", "b"}  BulkFills = {}  MaxId = 2  MaxRets = 2  MaxDepth = 5  DeepCopy = TRUE
 CONSTANT Pops <- PopsSelf
 INIT InitAll
 NEXT NextAll
